@@ -401,6 +401,7 @@ type cGen struct {
 	brkInner string    // what an unlabeled break leaves: "" / "for" / "switch"
 	lbls     []*cLabel // enclosing for / switch statements that may carry a Go label, innermost last
 	nlbl     int
+	nctx     int // if / for / switch / block statements generated so far
 	called   map[string]bool
 	calls    map[string]map[string]bool // caller -> callees
 }
@@ -712,11 +713,64 @@ func (g *cGen) block(n int) *cStmt {
 	g.depth++
 	var ss []*cStmt
 	for i := 0; i < n && g.budget > 0; i++ {
+		before := g.nctx
 		ss = append(ss, g.stmt())
+		// "enter an inner construct, leave it, then use the outer context": right behind a nested if / for / switch /
+		// block, a branch that refers to an ENCLOSING statement (the compiler saves and restores currentFor /
+		// currentSwitch / labelList / scopes around the inner construct; the Lean compiler's LoopCtx is lexical)
+		if g.nctx > before && (g.inLoop > 0 || g.inSwitch > 0) && g.r.Chance(1, 2) {
+			ss = append(ss, g.afterCtx())
+		}
 	}
 	g.depth--
 	ss = append(ss, g.pop()...)
 	return seq(ss)
+}
+
+// afterCtx: break / continue / break L / continue L / return referring to an enclosing statement, a third of them
+// unconditional (so that the branch is certainly executed when the place is reached).
+func (g *cGen) afterCtx() *cStmt {
+	var b *cStmt
+	switch g.r.Intn(6) {
+	case 0, 1:
+		b = &cStmt{k: "brk"}
+	case 2:
+		if g.inLoop > 0 {
+			b = &cStmt{k: "cont"}
+		} else {
+			b = &cStmt{k: "brk"}
+		}
+	case 3, 4:
+		if len(g.lbls) == 0 {
+			b = &cStmt{k: "brk"}
+			break
+		}
+		l := g.lbls[g.r.Intn(len(g.lbls))]
+		l.used = true
+		b = &cStmt{k: "brkL", x: l.name}
+		if l.isFor && g.r.Bool() {
+			b.k = "contL"
+		}
+	default:
+		if g.cur == nil {
+			b = &cStmt{k: "brk"}
+		} else {
+			b = g.retStmt()
+		}
+	}
+	kind := b.k
+	if kind == "brk" && g.brkInner == "switch" {
+		kind = "brk-switch"
+	}
+	if kind == "cont" && g.brkInner == "switch" {
+		kind = "cont-through-switch"
+	}
+	g.f("after-ctx:" + kind)
+	if g.r.Chance(1, 3) {
+		g.f("after-ctx-unconditional")
+		return b
+	}
+	return &cStmt{k: "if", e: g.genBool(1), kids: []*cStmt{seq([]*cStmt{b})}, elseK: "none"}
 }
 
 func (g *cGen) newName(ty Kind) string {
@@ -860,9 +914,11 @@ func (g *cGen) stmt() *cStmt {
 		g.decl(&cVar{name: name, ty: ty})
 		return s
 	case 5: // if
+		g.nctx++
 		g.f("stmt:if")
 		return g.ifStmt()
 	case 6: // for
+		g.nctx++
 		return g.forStmt()
 	case 7: // break / continue under a condition
 		c := g.genBool(2)
@@ -876,6 +932,7 @@ func (g *cGen) stmt() *cStmt {
 		}
 		return &cStmt{k: "if", e: c, kids: []*cStmt{seq([]*cStmt{{k: k}})}, elseK: "none"}
 	case 12:
+		g.nctx++
 		return g.switchStmt()
 	case 13: // labeled break / continue under a condition
 		l := g.lbls[g.r.Intn(len(g.lbls))]
@@ -906,6 +963,7 @@ func (g *cGen) stmt() *cStmt {
 		}
 		return &cStmt{k: "call", e: g.callTo(f, 2)}
 	case 9: // nested block
+		g.nctx++
 		g.f("stmt:block")
 		return &cStmt{k: "blk", kids: []*cStmt{g.block(g.r.Range(1, 3))}}
 	case 11: // explicit panic under a condition: panic(e) evaluates e, then THROW
